@@ -7,17 +7,17 @@ Open Scope string_scope.
 (* "a program built from assignments, if/elseif/else, while, do-while, for, foreach, switch,
    break/continue with levels, user functions with defaults, recursion, static locals and return
    prints exactly what the reference semantics prescribe": for EVERY program of the core that a
-   PHP front end accepts ([wf]) and that stays outside the recorded defect classes ([clean]), and
-   for EVERY fuel, the implementation's interpreter and the reference interpreter produce the same
+   PHP front end accepts ([wf]) — no defect class is excluded any more, every class once outside
+   [clean] has been repaired in /repo (see repaired_classes) — and for EVERY fuel, the implementation's interpreter and the reference interpreter produce the same
    echoed text and the same kind of ending (normal / uncaught error / out of fuel).
    The AST also contains try/catch/finally and throw (property C05); the two interpreters take the
    catch-type test as a parameter ([cmi]: the walk the code performs, [cmr]: "the class, an ancestor
    or an implemented interface"), and the theorem asks that the two tests agree — C05 discharges
    that from C08's theorems; programs without catch clauses never consult it. *)
 Theorem impl_refines_ref : forall cmi cmr, (forall t v, cmi t v = cmr t v) ->
-  forall fuel p, wf p = true -> clean p = true ->
+  forall fuel p, wf p = true ->
   run_impl cmi fuel p = run_ref cmr fuel p.
-Proof. exact impl_refines_ref_l. Qed.
+Proof. exact impl_refines_ref_wf_l. Qed.
 Print Assumptions impl_refines_ref.
 
 (* "every loop exit and return transfers control to exactly the construct it names": for every
@@ -27,12 +27,12 @@ Print Assumptions impl_refines_ref.
    exactly the construct identifier the reference semantics resolved statically ([crel]):
    IBrk k ~ RBrk l iff the k-th enclosing construct is l, IRet v ~ RRet v, nothing else. *)
 Theorem exits_reach_named_construct : forall cmi cmr, (forall t v, cmi t v = cmr t v) ->
-  forall p, wf p = true -> clean p = true ->
+  forall p, wf p = true ->
   forall fuel fn s stk path fr g,
-  scoped (List.length stk) s = true -> one_default s = true -> clean_stmt (is_main fn) s = true ->
+  scoped (List.length stk) s = true -> one_default s = true ->
   shorter stk path ->
   rrel stk (iexec cmi (funcs p) (closures p) fuel fn s fr g) (rexec cmr (funcs p) (closures p) fuel fn (resolve stk path s) fr g).
-Proof. exact exits_named_l. Qed.
+Proof. exact exits_named_wf_l. Qed.
 Print Assumptions exits_reach_named_construct.
 
 (* "fast-path integer nodes falling back": whenever a fused node's fast path fires it yields,
@@ -129,11 +129,11 @@ Proof. exact slot_sim. Qed.
 Print Assumptions slot_sim_statement.
 (* hence the slot-vector interpreter refines the reference semantics too *)
 Theorem slots_refine_ref : forall cmi cmr, (forall t v, cmi t v = cmr t v) ->
-  forall fuel p, wf p = true -> clean p = true -> cov_prog p = true ->
+  forall fuel p, wf p = true -> cov_prog p = true ->
   run_slots cmi fuel p = run_ref cmr fuel p.
 Proof.
-  exact (fun cmi cmr H fuel p W C V =>
-           eq_trans (slot_sem_is_impl_sem_l cmi fuel p V) (impl_refines_ref_l cmi cmr H fuel p W C)).
+  exact (fun cmi cmr H fuel p W V =>
+           eq_trans (slot_sem_is_impl_sem_l cmi fuel p V) (impl_refines_ref_wf_l cmi cmr H fuel p W)).
 Qed.
 Print Assumptions slots_refine_ref.
 (* "locals of one call are never visible to another call", on vectors: the callee of a named function
@@ -176,13 +176,17 @@ Proof. exact index_of_inj. Qed.
 Print Assumptions slots_distinct.
 
 (* The classes that used to be outside [clean] and have been repaired in /repo (switch fall-through in three
-   positions: 8109483; static in the main script: d3ebf7f): the former `_refuted` witnesses are now inside the
-   theorem, and both interpreters compute PHP's answer on them.  The one class left outside [clean]
-   (closure:falloff-value) has no witness here: the model has no statement values and cannot mirror it. *)
+   positions: 8109483; static in the main script: d3ebf7f; a closure running off its end: 1b0c649): the former
+   `_refuted` witnesses are now inside the theorem, and both interpreters compute PHP's answer on them.
+   No class is left outside: [clean] holds of every program. *)
 Theorem repaired_classes :
-  map (run_impl no_catch 50) [w_fallthrough; w_case_group; w_default_first; w_static_main]
-  = [("ab", EndOk); ("x", EndOk); ("d1", EndOk); ("12", EndOk)] /\
-  map (run_ref no_catch 50) [w_fallthrough; w_case_group; w_default_first; w_static_main]
-  = [("ab", EndOk); ("x", EndOk); ("d1", EndOk); ("12", EndOk)] /\
-  forallb clean [w_fallthrough; w_case_group; w_default_first; w_static_main] = true.
+  map (run_impl no_catch 50) [w_fallthrough; w_case_group; w_default_first; w_static_main; w_closure_falloff]
+  = [("ab", EndOk); ("x", EndOk); ("d1", EndOk); ("12", EndOk); ("null", EndOk)] /\
+  map (run_ref no_catch 50) [w_fallthrough; w_case_group; w_default_first; w_static_main; w_closure_falloff]
+  = [("ab", EndOk); ("x", EndOk); ("d1", EndOk); ("12", EndOk); ("null", EndOk)] /\
+  forallb wf [w_fallthrough; w_case_group; w_default_first; w_static_main; w_closure_falloff] = true.
 Proof. exact repaired_classes_l. Qed.
+Print Assumptions repaired_classes.
+Theorem no_class_excluded : forall p, clean p = true.
+Proof. exact clean_all. Qed.
+Print Assumptions no_class_excluded.
